@@ -5,7 +5,7 @@
    the chunk loop and the directory loop carry fuel and yield `RUB UB_fuel` if it runs out; all Decoder primitives are the
    need()-guarded ones of the current source. *)
 From Coq Require Import ZArith List Bool.
-From OVM Require Import Base.Int32 Gen.OvmbFormat IO.Bytes IO.OvmbWriterModel IO.OvmbReaderModel IO.OvmbProofs.
+From OVM Require Import Base.Int32 Gen.OvmbFormat IO.Bytes IO.OvmbWriterModel IO.OvmbReaderModel IO.OvmbProofs IO.Ovmb2Hex.
 Import ListNotations.
 Local Open Scope Z_scope.
 
@@ -41,25 +41,38 @@ Proof. intros o bytes m H1 H2. exact (proj2 (proj2 (proj2 (proj2 (proj2 (proj2 (
 Print Assumptions C07_valid_framing.
 
 (* Success means a valid mesh: every vertex handle stored in an edge is below n_vertices, every halfedge handle stored in a face
-   below 2 n_edges, every halfface handle stored in a cell below 2 n_faces, and every property has one element per entity -
-   for files whose four header counts are below 2^30 (every half-entity handle representable as int) and every reader
-   configuration except the hexahedral class with the topology check on (`plain_cells`). *)
+   below 2 n_edges, every halfface handle stored in a cell below 2 n_faces (and none is negative), and every property has one
+   element per entity - for files whose four header counts are below 2^30 (every half-entity handle representable as int) and
+   EVERY reader configuration: polyhedral / tetrahedral / hexahedral mesh object, topology check on or off, incidences on or off.
+   For the hexahedral class with the check on this rests on the two checks HexahedralMeshTopologyKernel::add_cell performs
+   after its re-ordering attempt (every slot is_valid(), second check_halfface_ordering): the re-ordering can leave
+   InvalidHalfFaceHandle in a slot, and TopologyKernel::add_cell would read it as halfface 1 (IO/Ovmb2Hex.v has the file). *)
 Theorem C07_valid : forall o bytes m,
-  bytes_ok bytes -> small_counts bytes -> plain_cells o -> decode_impl o bytes = ROk m -> mesh_valid m.
+  bytes_ok bytes -> small_counts bytes -> decode_impl o bytes = ROk m -> mesh_valid m.
 Proof. exact ok_mesh_valid. Qed.
 Print Assumptions C07_valid.
 
-(* C07_valid_hex_check (`_partial`, NOT proved): the same for o_mesh = MHex with o_check = true.  There the re-ordering path of
-   HexahedralMeshTopologyKernel::add_cell builds a list that can contain InvalidHalfFaceHandle slots and passes it to
-   TopologyKernel::add_cell; whether such a list can pass the manifoldness check (and so be stored) is a property of the
-   hexahedral kernel (C16), not of the reader.  What IS proved for that configuration: C07_total (no out-of-range access),
-   C07_valid_props, C07_valid_framing, and that every handle handed to add_face / add_cell is in range (C07_invariant +
-   C18_framing_handle).  The C++ oracle mesh_valid (harness/run_io.cc) checks the full statement on every Ok result of every
-   generated input, hexahedral class with the check on included. *)
+(* the kernel-side fact behind it: whatever add_cell stores, in any configuration, designates existing halffaces *)
+Theorem C07_add_cell_valid : forall o faces hs s,
+  Forall (in_lim (2 * len faces)) hs -> mesh_add_cell o faces hs = Ret (Some s) -> Forall (in_lim (2 * len faces)) s.
+Proof. exact mesh_add_cell_valid. Qed.
+Print Assumptions C07_add_cell_valid.
 
 (* non-vacuity: the theorems speak about a reader that does accept files *)
 Example C07_nonvacuous :
-  decode_impl ex_opts (encode 3 1 ex_tet) = ROk ex_tet /\ plain_cells ex_opts /\
+  decode_impl ex_opts (encode 3 1 ex_tet) = ROk ex_tet /\
   (exists r s, decode_impl ex_opts (firstn 100 (encode 3 1 ex_tet)) = RErr r s) /\
-  bytes_ok (encode 3 1 ex_tet).
-Proof. split; [exact ex_tet_roundtrip|]. split; [exact I|]. split; [vm_compute; eauto|]. exact (proj1 ex_tet_small). Qed.
+  bytes_ok (encode 3 1 ex_tet) /\ small_counts (encode 3 1 ex_tet).
+Proof.
+  split; [exact ex_tet_roundtrip|]. split; [vm_compute; eauto|]. split; [exact (proj1 ex_tet_small)|].
+  unfold small_counts. vm_compute. repeat split; reflexivity.
+Qed.
+
+(* the hexahedral class with the check on: a cube is read (through check_halfface_ordering), a cube whose cell needs
+   re-ordering is read re-ordered, and the cube with a wrongly oriented halfface - whose re-ordering leaves an invalid slot - is
+   refused *)
+Example C07_nonvacuous_hex :
+  decode_impl hex_check_opts (encode 3 2 ex_hex) = ROk ex_hex /\
+  hex_reorder (m_faces ex_hex) [5; 0; 3; 7; 9; 11] = Ret (Some [5; 7; 9; 11; 3; -1]) /\
+  decode_impl hex_check_opts (encode 3 2 ex_hexbad) = RErr RR_InvalidFile S_ErrorInvalidFile.
+Proof. split; [apply ex_hex_roundtrip|]. split; [exact hexbad_reorder|apply hexbad_rejected]. Qed.
